@@ -23,7 +23,7 @@ which label stands for it:
   `handleAsync` comes first.  A call that was dispatched before `kill` runs to its end as before.
 
 `XState` adds the three ghost sets to `State`.  Everything is proved by REFINEMENT: a run with cancellations
-projects (`proj`: `drop i` ↦ `disp i`, `rel i`; `cancel`/`kill` ↦ nothing) to a run of `Order.step` with the same
+projects (`xproj`: `drop i` ↦ `disp i`, `rel i`; `cancel`/`kill` ↦ nothing) to a run of `Order.step` with the same
 visible events and the same final pair state, so every theorem of `Props` holds for runs with cancellations
 (`xrun_refines`), in particular the ordering clause (`cancel_sync_end_before_later_start`), the FIFO theorem
 (`cancel_dispatch_order_is_write_order`: what the dispatcher has taken — dispatched or dropped — followed by
@@ -86,16 +86,16 @@ def xrun (kind : Nat → Kind) : XState → List XLabel → Option XState
 
 /-- The run of `Order.step` a run with cancellations stands for: dropping the head is the dispatcher taking it
 and being released at once (no handler), the sender giving up and the receiver's `Cancel` are invisible. -/
-def proj : List XLabel → List Label
+def xproj : List XLabel → List Label
   | [] => []
-  | .base l :: r => l :: proj r
-  | .drop i :: r => .disp i :: .rel i :: proj r
-  | _ :: r => proj r
+  | .base l :: r => l :: xproj r
+  | .drop i :: r => .disp i :: .rel i :: xproj r
+  | _ :: r => xproj r
 
-theorem proj_append (a b : List XLabel) : proj (a ++ b) = proj a ++ proj b := by
+theorem xproj_append (a b : List XLabel) : xproj (a ++ b) = xproj a ++ xproj b := by
   induction a with
   | nil => rfl
-  | cons l r ih => cases l <;> simp [proj, ih]
+  | cons l r ih => cases l <;> simp [xproj, ih]
 
 /-- `drop i` changes the pair state exactly as `disp i` followed by `rel i`. -/
 theorem drop_is_disp_rel {kind : Nat → Kind} {x x' : XState} {i : Nat} (h : xstep kind x (.drop i) = some x') :
@@ -127,7 +127,7 @@ theorem xstep_base {kind : Nat → Kind} {x x' : XState} {l : Label} (h : xstep 
 /-- REFINEMENT: every run with cancellations projects to a run of the pair model that ends in the same pair
 state. -/
 theorem xrun_refines {kind : Nat → Kind} {x x' : XState} {ls : List XLabel} (h : xrun kind x ls = some x') :
-    run kind x.s (proj ls) = some x'.s := by
+    run kind x.s (xproj ls) = some x'.s := by
   induction ls generalizing x with
   | nil => simp [xrun] at h; subst h; rfl
   | cons l r ih =>
@@ -139,42 +139,42 @@ theorem xrun_refines {kind : Nat → Kind} {x x' : XState} {ls : List XLabel} (h
       have hr := ih h
       cases l with
       | base l =>
-        simp only [proj, run, xstep_base hx]
+        simp only [xproj, run, xstep_base hx]
         exact hr
       | cancel i =>
-        simp only [proj]
+        simp only [xproj]
         simp only [xstep] at hx
         split at hx <;> simp at hx
         subst hx
         exact hr
       | kill i =>
-        simp only [proj]
+        simp only [xproj]
         simp only [xstep] at hx
         split at hx <;> simp at hx
         subst hx
         exact hr
       | drop i =>
         have hd := drop_is_disp_rel hx
-        show run kind x.s ([.disp i, .rel i] ++ proj r) = some x'.s
+        show run kind x.s ([.disp i, .rel i] ++ xproj r) = some x'.s
         rw [run_append, hd]
         exact hr
 
-/-- `proj` adds only `disp`/`rel` labels: every other label of the projection is a base label of the run. -/
-theorem mem_proj {ls : List XLabel} {l : Label} (h : l ∈ proj ls) (hd : ∀ i, l ≠ .disp i) (hr : ∀ i, l ≠ .rel i) :
+/-- `xproj` adds only `disp`/`rel` labels: every other label of the projection is a base label of the run. -/
+theorem mem_xproj {ls : List XLabel} {l : Label} (h : l ∈ xproj ls) (hd : ∀ i, l ≠ .disp i) (hr : ∀ i, l ≠ .rel i) :
     XLabel.base l ∈ ls := by
   induction ls with
-  | nil => simp [proj] at h
+  | nil => simp [xproj] at h
   | cons a r ih =>
     cases a with
     | base b =>
-      simp only [proj, List.mem_cons] at h
+      simp only [xproj, List.mem_cons] at h
       rcases h with rfl | h
       · simp
       · exact List.mem_cons_of_mem _ (ih h)
-    | cancel i => exact List.mem_cons_of_mem _ (ih (by simpa [proj] using h))
-    | kill i => exact List.mem_cons_of_mem _ (ih (by simpa [proj] using h))
+    | cancel i => exact List.mem_cons_of_mem _ (ih (by simpa [xproj] using h))
+    | kill i => exact List.mem_cons_of_mem _ (ih (by simpa [xproj] using h))
     | drop i =>
-      simp only [proj, List.mem_cons] at h
+      simp only [xproj, List.mem_cons] at h
       rcases h with rfl | rfl | h
       · exact absurd rfl (hd i)
       · exact absurd rfl (hr i)
@@ -189,11 +189,11 @@ theorem cancel_sync_end_before_later_start {kind : Nat → Kind} {l₁ l₂ l₃
     (hsync : (kind i).sync = true) :
     XLabel.base (.fin i) ∈ l₁ ++ .base (.ret i) :: (l₂ ++ .base (.send j) :: l₃) := by
   have hr := xrun_refines h
-  simp only [proj_append, proj, xinit] at hr
-  have := sync_end_before_later_start (l₁ := proj l₁) (l₂ := proj l₂) (l₃ := proj l₃) hr hsync
-  have hm : Label.fin i ∈ proj (l₁ ++ .base (.ret i) :: (l₂ ++ .base (.send j) :: l₃)) := by
-    simpa [proj_append, proj] using this
-  exact mem_proj hm (by intro k; simp) (by intro k; simp)
+  simp only [xproj_append, xproj, xinit] at hr
+  have := sync_end_before_later_start (l₁ := xproj l₁) (l₂ := xproj l₂) (l₃ := xproj l₃) hr hsync
+  have hm : Label.fin i ∈ xproj (l₁ ++ .base (.ret i) :: (l₂ ++ .base (.send j) :: l₃)) := by
+    simpa [xproj_append, xproj] using this
+  exact mem_xproj hm (by intro k; simp) (by intro k; simp)
 
 /-- Non-vacuity: notification 0 runs, call 1 is queued behind it, notifications 2 and 3 are queued behind the
 call, the caller of 1 gives up, the receiver cancels it late, 4 is sent; the dispatcher drops 1 and hands over
@@ -212,25 +212,25 @@ def takenOf (ls : List XLabel) : List Nat :=
 
 def xwritesOf (ls : List XLabel) : List Nat := ls.filterMap fun | .base (.write i) => some i | _ => none
 
-theorem dispsOf_proj (ls : List XLabel) : dispsOf (proj ls) = takenOf ls := by
+theorem dispsOf_xproj (ls : List XLabel) : dispsOf (xproj ls) = takenOf ls := by
   induction ls with
   | nil => rfl
   | cons a r ih =>
     cases a with
-    | base b => cases b <;> simp [proj, dispsOf, takenOf] <;> simpa [dispsOf, takenOf] using ih
-    | cancel i => simpa [proj, dispsOf, takenOf] using ih
-    | kill i => simpa [proj, dispsOf, takenOf] using ih
-    | drop i => simp [proj, dispsOf, takenOf]; simpa [dispsOf, takenOf] using ih
+    | base b => cases b <;> simp [xproj, dispsOf, takenOf] <;> simpa [dispsOf, takenOf] using ih
+    | cancel i => simpa [xproj, dispsOf, takenOf] using ih
+    | kill i => simpa [xproj, dispsOf, takenOf] using ih
+    | drop i => simp [xproj, dispsOf, takenOf]; simpa [dispsOf, takenOf] using ih
 
-theorem writesOf_proj (ls : List XLabel) : writesOf (proj ls) = xwritesOf ls := by
+theorem writesOf_xproj (ls : List XLabel) : writesOf (xproj ls) = xwritesOf ls := by
   induction ls with
   | nil => rfl
   | cons a r ih =>
     cases a with
-    | base b => cases b <;> simp [proj, writesOf, xwritesOf] <;> simpa [writesOf, xwritesOf] using ih
-    | cancel i => simpa [proj, writesOf, xwritesOf] using ih
-    | kill i => simpa [proj, writesOf, xwritesOf] using ih
-    | drop i => simp [proj, writesOf, xwritesOf]; simpa [writesOf, xwritesOf] using ih
+    | base b => cases b <;> simp [xproj, writesOf, xwritesOf] <;> simpa [writesOf, xwritesOf] using ih
+    | cancel i => simpa [xproj, writesOf, xwritesOf] using ih
+    | kill i => simpa [xproj, writesOf, xwritesOf] using ih
+    | drop i => simp [xproj, writesOf, xwritesOf]; simpa [writesOf, xwritesOf] using ih
 
 /-- FIFO with cancellations, for ALL runs: what the dispatcher has taken so far (handed to a handler, or
 dropped because it was cancelled while queued), followed by the queue, is exactly what was written, in write
@@ -240,31 +240,31 @@ LAST element into its place). -/
 theorem cancel_dispatch_order_is_write_order {kind : Nat → Kind} {ls : List XLabel} {x : XState}
     (h : xrun kind xinit ls = some x) : takenOf ls ++ x.s.queue = xwritesOf ls := by
   have := dispatch_order_is_write_order (xrun_refines h)
-  rwa [dispsOf_proj, writesOf_proj] at this
+  rwa [dispsOf_xproj, writesOf_xproj] at this
 
 /-- What an observer sees of a run with cancellations (the sender giving up shows as the API call's error,
 which the monitor does not read; `kill`/`drop` are internal). -/
 def xvisible (ls : List XLabel) : List Ev := ls.filterMap fun | .base l => l.vis | _ => none
 
-theorem visible_proj (ls : List XLabel) : visible (proj ls) = xvisible ls := by
+theorem visible_xproj (ls : List XLabel) : visible (xproj ls) = xvisible ls := by
   induction ls with
   | nil => rfl
   | cons a r ih =>
     cases a with
-    | base b => simp only [proj, visible, xvisible, List.filterMap_cons]; cases b.vis <;> simpa [visible, xvisible] using ih
-    | cancel i => simpa [proj, visible, xvisible] using ih
-    | kill i => simpa [proj, visible, xvisible] using ih
+    | base b => simp only [xproj, visible, xvisible, List.filterMap_cons]; cases b.vis <;> simpa [visible, xvisible] using ih
+    | cancel i => simpa [xproj, visible, xvisible] using ih
+    | kill i => simpa [xproj, visible, xvisible] using ih
     | drop i =>
-      have : visible (.disp i :: .rel i :: proj r) = visible (proj r) := by
+      have : visible (.disp i :: .rel i :: xproj r) = visible (xproj r) := by
         simp only [visible, List.filterMap_cons, Label.vis]
-      rw [proj, this, ih]
+      rw [xproj, this, ih]
       simp [xvisible]
 
 /-- Bridging theorem with cancellations: the property monitor accepts what is visible of EVERY run of the model
 with cancellations. -/
 theorem cancel_monitor_accepts_runs {kind : Nat → Kind} {ls : List XLabel} {x : XState}
     (h : xrun kind xinit ls = some x) : holdsOn kind (xvisible ls) = true := by
-  rw [← visible_proj]
+  rw [← visible_xproj]
   exact monitor_accepts_runs (xrun_refines h)
 
 /-! ### a dropped call never runs; a cancelled call never returns normally -/
